@@ -10,6 +10,11 @@ LAB = "./internal/zzverif/lab"
 H2 = "./internal/martian/h2"
 
 CHECKS = {
+    "C20": {
+        "runs": [
+            R(LAB, "^TestC20Limits", {"checks": 16, "timeout": 900}, {"checks": 100, "shards": 4, "timeout": 3000}),
+        ],
+    },
     "C15": {
         "runs": [
             R(LAB, "^TestC15Stall", {"checks": 20, "timeout": 900}, {"checks": 120, "shards": 8, "timeout": 3000}),
@@ -116,6 +121,9 @@ CHECKS = {
 LEVELS = {"C12": "fault_enumeration"}  # default: exploration
 
 RULES = {
+    "C20": "a fresh proxy per case (full token bucket) with generated --read-limit / --write-limit pairs: none, only the other direction (64 KiB/s, so low that applied to the wrong direction the transfer would need > 16 s), this direction at 1/2/4 MiB/s with or without the other; 1-3 concurrent connections sharing the listener; download or upload, as plain request or through a CONNECT tunnel; total volume = 4 MiB burst + 300/500/800 ms worth of the rate. "
+           "Oracle: arrival timeline of the transferred bytes (download: at the client; upload: at a scripted origin, because kernel buffers hide what the proxy has accepted) merged over all connections - at every sample cumulative bytes <= burst + rate x elapsed + 64 KiB per connection, elapsed measured from before the first connection (exact, no tolerance); a direction without limit must finish within 8 s (retried twice); every byte is a fixed function of (connection, offset) and is verified. "
+           "Non-trivial = some limit configured. Distinct = distinct cases.",
     "C15": "proxies with small, pairwise different limits (idle 600 ms, read-header 350 ms, TLS handshake 450 ms, PROXY header 250 ms; one extra plain proxy with idle 2.5 s) on six listener stackings: plain, TLS, PROXY protocol, PROXY+TLS, MITM, plain with long idle. rapid draws 1-40 simultaneous peers, each stalling at a generated point: before any byte, after k bytes of the PROXY line / the TLS ClientHello (a real captured hello) / the request head (k generated), head sent in two parts, between requests, after a MITM'd CONNECT with and without hello bytes; optionally a well-behaved client that connects while the others stall, and a request whose origin answers only after 3 idle timeouts. "
            "Oracle: each stalled socket is ended by the proxy no earlier than the applicable limit after the earliest instant the proxy's timer can have started (exact lower bound) and no later than limit + 3 s (1.5 s on the long-idle stack, so a header limit silently replaced by the idle limit is seen); the slow-origin exchange completes; the well-behaved client is served within half the smallest limit. Positive timing clauses are retried twice before they count. "
            "Non-trivial = a stall inside a partially sent unit, or >= 2 stalled peers with a bystander. Distinct = distinct cases.",
@@ -184,6 +192,8 @@ RULES = {
 }
 
 ASSUMPTIONS = {
+    "C20": ["only upper bounds on throughput (lower bounds on duration) are decidable from outside; fairness between connections is not claimed",
+            "burst size 4 MiB is the documented default for rates below 256 MiB/s"],
     "C15": ["upper bounds are bounded-liveness with generous slack and a retry-3 rule; lower bounds are exact because the harness clock is read before the proxy can have started its timer",
             "for 'between requests' the reference instant is the sending of the previous request (sound, slightly weaker than the true start of the idle period)",
             "a MITM'd CONNECT without any following byte is expected to end by the MITM handshake timeout"],
@@ -247,6 +257,11 @@ ASSUMPTIONS = {
 # MANIFEST texts
 
 META = {
+    "C20": {
+        "technique": "property-based testing (rapid) over limit pairs, directions, tunnel/plain and 1-3 sharing connections; metamorphic data check (throttled = unthrottled bytes) and an exact token-bucket upper bound on the observed arrival timeline",
+        "text": "Each case measures the arrival timeline of a transfer that exceeds the burst and checks the token-bucket bound at every sample over all connections of the listener, that the opposite limit does not slow it, and that the data is unaltered. 16 cases quick, 400 thorough. Verified against: swapped direction mapping, limiter per connection, missing wait, doubled burst.",
+        "note": "Each case costs 0.3-1 s of mandatory throttling time.",
+    },
     "C15": {
         "technique": "property-based testing (rapid) over generated populations of stalled peers on six listener stackings; timing oracle with exact lower bounds and retried upper bounds; bystander latency probe",
         "text": "Generated stall points (incl. every partial-unit offset the generator draws) are executed by up to 40 concurrent scripted peers; closing too early, too late or never, a slow origin being cut off, and a bystander waiting behind stalled peers are all detected. 20 cases quick (about 30 s), 960 thorough.",
